@@ -606,6 +606,14 @@ def check_completion(ctx, rep, K, IK, RULE="K4"):
 def run(ctx, rep):
     M, K, IK = check_rejection(ctx, rep)
     ds_field = check_completion(ctx, rep, K, IK)
+    if ds_field is None:
+        # K4 has reported that is_kekulized() no longer tests the delocalised subgraph; the rules that model the subgraph field
+        # (frame, pruning table, kept vertices) have no anchor and are skipped -- the run fails on K4
+        rep.note("delocalised-subgraph field not identified (see K4): K2, K6, K8 not evaluated")
+        check_symmetric(ctx, rep, M)
+        check_search_state_local(ctx, rep, M)
+        check_writeback_phases(ctx, rep, "K9")
+        return
     check_frame(ctx, rep, K, ds_field)
     check_symmetric(ctx, rep, M)
     check_search_state_local(ctx, rep, M)
@@ -639,6 +647,7 @@ PRUNE_SPEC = [
     (("S", 1, 0, 2, 1), True, "[s+]R  (S-alkylthiophenium: three sigma bonds, lone pair donated)"),
     (("O", 1, 0, 2, 1), True, "[o+]R  (O-alkylfuranium type)"),
     (("S", 0, None, 2, 2), True, "s(=O)  sulfur with an exocyclic double bond (thiophene S-oxide type)"),
+    (("P", 0, None, 2, 3), True, "p(=O)R  pentavalent phosphorus (phosphole oxide type: satisfied by its substituents)"),
     # half-integral bond sums (an odd number of aromatic bonds): the electron count must not lose the half bond
     (("C", 0, 1, 1, 1), False, "[cH]-  with one aromatic and one explicit single ring bond"),
     (("N", 0, 0, 3, 0), True, "[n]3  ring-fusion nitrogen (three aromatic bonds)"),
